@@ -12,6 +12,9 @@ import (
 // declared local is given the i-th name of the reference sequence (the names the translator's shapes are written in)
 // before the body is rendered.  When the number of declarations differs nothing is renamed and the shapes decide.
 
+// g08UseNorm: set by genG08Both for the second attempt.
+var g08UseNorm bool
+
 func g08LocalObjs(fd *ast.FuncDecl) []*ast.Object {
 	var objs []*ast.Object
 	seen := map[*ast.Object]bool{}
@@ -49,7 +52,7 @@ func g08Norm(fd *ast.FuncDecl, ref []string) {
 		}
 		fmt.Fprintf(os.Stderr, "locals %s: []string{%s}\n", fd.Name.Name, strings.Join(names, ", "))
 	}
-	if len(objs) != len(ref) {
+	if !g08UseNorm || len(objs) != len(ref) {
 		return
 	}
 	newName := map[*ast.Object]string{}
